@@ -1011,3 +1011,490 @@ func jsonString(v any) (string, error) {
 }
 
 func jsonMarshal(v any) ([]byte, error) { return json.Marshal(v) }
+
+// ------------------------------------------------------------------------------------------------
+// C08: real RemoteWrapper over a real FileSystemCache per machine and one in-memory remote with scripted faults
+// ------------------------------------------------------------------------------------------------
+
+type remoteFault struct {
+	Op   string // get | set | exists
+	NS   string
+	Key  string // "" = any key
+	Nth  int    // n-th matching operation (1-based); 0 = every matching operation
+	Kind string // err | err-after (set: stored, error returned) | err-mid (set: reader abandoned half way; get: reader fails half way)
+}
+
+// memRemote is the shared object store: atomic puts (like S3 PutObject / a finalised GCS writer).
+type memRemote struct {
+	mu     sync.Mutex
+	data   map[string][]byte
+	faults []remoteFault
+	seen   map[int]int
+	ops    []map[string]any
+}
+
+func newMemRemote() *memRemote {
+	return &memRemote{data: map[string][]byte{}, seen: map[int]int{}}
+}
+
+func (m *memRemote) TypeName() string { return "mem" }
+
+func (m *memRemote) fault(op, ns, key string) string {
+	for i, f := range m.faults {
+		if f.Op == op && (f.NS == "" || f.NS == ns) && (f.Key == "" || f.Key == key) {
+			m.seen[i]++
+			if f.Nth == 0 || f.Nth == m.seen[i] {
+				return f.Kind
+			}
+		}
+	}
+	return ""
+}
+
+func (m *memRemote) Get(ctx context.Context, path, key string) (io.ReadCloser, error) {
+	m.mu.Lock()
+	defer m.mu.Unlock()
+	f := m.fault("get", path, key)
+	b, ok := m.data[path+"/"+key]
+	m.ops = append(m.ops, map[string]any{"op": "get", "ns": path, "k": key, "fault": f, "present": ok})
+	if f == "err" || f == "err-after" {
+		return nil, errInjected
+	}
+	if !ok {
+		return nil, os.ErrNotExist
+	}
+	if f == "err-mid" {
+		r := bytes.NewReader(b)
+		return &failingReadCloser{failingReader{r, len(b) / 2}, io.NopCloser(r)}, nil
+	}
+	return io.NopCloser(bytes.NewReader(b)), nil
+}
+
+func (m *memRemote) Set(ctx context.Context, path, key string, content io.Reader) error {
+	m.mu.Lock()
+	f := m.fault("set", path, key)
+	m.ops = append(m.ops, map[string]any{"op": "set", "ns": path, "k": key, "fault": f})
+	m.mu.Unlock()
+	if f == "err" {
+		return errInjected // fails before reading anything (the tee then breaks the local write as well)
+	}
+	if f == "err-mid" {
+		buf := make([]byte, 1)
+		_, _ = content.Read(buf)
+		return errInjected
+	}
+	b, err := io.ReadAll(content)
+	if err != nil {
+		return err
+	}
+	if f == "err-late" {
+		return errInjected // everything was read, nothing stored (e.g. the final PUT failed)
+	}
+	m.mu.Lock()
+	m.data[path+"/"+key] = b
+	m.mu.Unlock()
+	if f == "err-after" {
+		return errInjected
+	}
+	return nil
+}
+
+func (m *memRemote) Delete(ctx context.Context, path, key string) error {
+	m.mu.Lock()
+	defer m.mu.Unlock()
+	delete(m.data, path+"/"+key)
+	return nil
+}
+
+func (m *memRemote) Exists(ctx context.Context, path, key string) (bool, error) {
+	m.mu.Lock()
+	defer m.mu.Unlock()
+	f := m.fault("exists", path, key)
+	_, ok := m.data[path+"/"+key]
+	m.ops = append(m.ops, map[string]any{"op": "exists", "ns": path, "k": key, "fault": f, "present": ok})
+	if f != "" {
+		return false, errInjected
+	}
+	return ok, nil
+}
+
+func (m *memRemote) has(ns, key string) bool {
+	m.mu.Lock()
+	defer m.mu.Unlock()
+	_, ok := m.data[ns+"/"+key]
+	return ok
+}
+
+// allTiers is the optional backend interface introduced by the repair of F-remote-skip; it is declared here so that
+// the harness builds against trees with and without it.
+type allTiers interface {
+	ExistsInAllTiers(ctx context.Context, path, key string) (bool, error)
+}
+
+// callRec records the calls the caching layer makes on the (wrapped) backend of one process, with the state of
+// both tiers after each call.
+type callRec struct {
+	inner  backends.CacheBackend
+	fs     *backends.FileSystemCache
+	remote *memRemote
+	log    *traceLog
+	pid    int
+	mach   string
+	set    map[string][][]byte // every content ever passed to Set, per ns/key (oracle: Get returns one of them)
+}
+
+func (c *callRec) TypeName() string { return c.inner.TypeName() }
+
+func (c *callRec) tiers(path, key string) (bool, bool) {
+	l, _ := c.fs.Exists(context.Background(), path, key)
+	return l, c.remote.has(path, key)
+}
+
+func (c *callRec) Exists(ctx context.Context, path, key string) (bool, error) {
+	// calls on one key are serialised in the recorder so that the logged order is the order of effects
+	kl := c.log.lockFor(path, key)
+	kl.Lock()
+	defer kl.Unlock()
+	ok, err := c.inner.Exists(ctx, path, key)
+	l, r := c.tiers(path, key)
+	c.log.add(map[string]any{"e": "exists", "p": c.pid, "m": c.mach, "ns": path, "k": key, "r": resName(ok, err), "l": l, "rem": r})
+	return ok, err
+}
+
+func (c *callRec) ExistsInAllTiers(ctx context.Context, path, key string) (bool, error) {
+	at, ok := c.inner.(allTiers)
+	if !ok {
+		return c.Exists(ctx, path, key)
+	}
+	kl := c.log.lockFor(path, key)
+	kl.Lock()
+	defer kl.Unlock()
+	res, err := at.ExistsInAllTiers(ctx, path, key)
+	l, r := c.tiers(path, key)
+	c.log.add(map[string]any{"e": "existsAll", "p": c.pid, "m": c.mach, "ns": path, "k": key, "r": resName(res, err), "l": l, "rem": r})
+	return res, err
+}
+
+func (c *callRec) Get(ctx context.Context, path, key string) (io.ReadCloser, error) {
+	// calls on one key are serialised in the recorder so that the logged order is the order of effects
+	kl := c.log.lockFor(path, key)
+	kl.Lock()
+	defer kl.Unlock()
+	lb, _ := c.tiers(path, key)
+	rc, err := c.inner.Get(ctx, path, key)
+	ev := map[string]any{"e": "get", "p": c.pid, "m": c.mach, "ns": path, "k": key, "lbefore": lb}
+	if err != nil {
+		ev["r"] = "err"
+		l, r := c.tiers(path, key)
+		ev["l"], ev["rem"] = l, r
+		c.log.add(ev)
+		return nil, err
+	}
+	data, rerr := io.ReadAll(rc)
+	rc.Close()
+	l, r := c.tiers(path, key)
+	ev["l"], ev["rem"] = l, r
+	if rerr != nil {
+		ev["r"] = "err"
+		c.log.add(ev)
+		return nil, rerr
+	}
+	ev["r"] = "yes"
+	// content check: a cas blob must hash to its key; any value must be one that was stored under that key
+	good := false
+	c.log.mu.Lock()
+	for _, b := range c.set[path+"/"+key] {
+		if bytes.Equal(b, data) {
+			good = true
+		}
+	}
+	c.log.mu.Unlock()
+	if path == "cas" {
+		good = good && hashing.HashBytes(data) == key
+	}
+	ev["contentOk"] = good
+	c.log.add(ev)
+	return io.NopCloser(bytes.NewReader(data)), nil
+}
+
+func (c *callRec) Set(ctx context.Context, path, key string, content io.Reader) error {
+	// calls on one key are serialised in the recorder so that the logged order is the order of effects
+	kl := c.log.lockFor(path, key)
+	kl.Lock()
+	defer kl.Unlock()
+	data, rerr := io.ReadAll(content)
+	if rerr != nil {
+		return rerr
+	}
+	c.log.mu.Lock()
+	c.set[path+"/"+key] = append(c.set[path+"/"+key], data)
+	c.log.mu.Unlock()
+	refs := c.log.refsOf(path, key, data)
+	err := c.inner.Set(ctx, path, key, bytes.NewReader(data))
+	l, r := c.tiers(path, key)
+	c.log.add(map[string]any{"e": "set", "p": c.pid, "m": c.mach, "ns": path, "k": key, "refs": refs, "ok": err == nil, "l": l, "rem": r,
+		"hashOk": path != "cas" || hashing.HashBytes(data) == key})
+	return err
+}
+
+func (c *callRec) Delete(ctx context.Context, path, key string) error { return c.inner.Delete(ctx, path, key) }
+
+// setRecorder remembers what was stored under each key (for the content check of later Gets).
+type setRecorder struct {
+	backends.CacheBackend
+	log *traceLog
+	set map[string][][]byte
+}
+
+func (r *setRecorder) Set(ctx context.Context, path, key string, content io.Reader) error {
+	data, err := io.ReadAll(content)
+	if err != nil {
+		return err
+	}
+	r.log.mu.Lock()
+	r.set[path+"/"+key] = append(r.set[path+"/"+key], data)
+	r.log.mu.Unlock()
+	return r.CacheBackend.Set(ctx, path, key, bytes.NewReader(data))
+}
+
+// remoteClosure is the model-independent oracle of C08: every target result in the remote store references only
+// blobs that are in the remote store (trees: every file node).
+func remoteClosure(m *memRemote) []string {
+	m.mu.Lock()
+	defer m.mu.Unlock()
+	problems := []string{}
+	for name, content := range m.data {
+		if !strings.HasPrefix(name, "target/") {
+			continue
+		}
+		tr := &gen.TargetResult{}
+		if err := proto.Unmarshal(content, tr); err != nil {
+			problems = append(problems, name+": does not unmarshal")
+			continue
+		}
+		for _, o := range tr.Outputs {
+			if f := o.GetFile(); f != nil {
+				if _, ok := m.data["cas/"+f.GetDigest().GetHash()]; !ok {
+					problems = append(problems, name+": file blob "+f.GetDigest().GetHash()+" not in the remote store")
+				}
+			}
+			if d := o.GetDirectory(); d != nil {
+				tb, ok := m.data["cas/"+d.GetTreeDigest().GetHash()]
+				if !ok {
+					problems = append(problems, name+": tree blob "+d.GetTreeDigest().GetHash()+" not in the remote store")
+					continue
+				}
+				for _, fd := range treeFileDigests(tb) {
+					if _, ok := m.data["cas/"+fd]; !ok {
+						problems = append(problems, name+": file blob "+fd+" of tree "+d.GetTreeDigest().GetHash()+" not in the remote store")
+					}
+				}
+			}
+		}
+	}
+	for name, content := range m.data {
+		if strings.HasPrefix(name, "cas/") && hashing.HashBytes(content) != strings.TrimPrefix(name, "cas/") {
+			problems = append(problems, name+": remote content does not hash to its name")
+		}
+	}
+	sort.Strings(problems)
+	return problems
+}
+
+func init() {
+	// {"op":"store.remote","scratch":..,"ws":<entry>,"targets":[..],"history":[{"m":"A","do":"build"|"build-local"|"restore","targets":[i..],"faults":[..]}]}
+	register("store.remote", func(req map[string]any) (any, error) {
+		env, err := newStoreEnv(req)
+		if err != nil {
+			return nil, err
+		}
+		defer env.close()
+		targets := parseTargets(req["targets"])
+		remote := newMemRemote()
+		tl := &traceLog{keyLocks: map[string]*sync.RWMutex{}, treeKeys: map[string]bool{}}
+		sets := map[string][][]byte{}
+		machines := map[string]*backends.FileSystemCache{}
+		machineFS := func(name string) (*backends.FileSystemCache, error) {
+			if fs, ok := machines[name]; ok {
+				return fs, nil
+			}
+			saved := config.Global.Root
+			config.Global.Root = filepath.Join(env.dir, "root-"+name)
+			fs, err := backends.NewFileSystemCache(env.ctx)
+			config.Global.Root = saved
+			if err == nil {
+				machines[name] = fs
+			}
+			return fs, err
+		}
+		// tree digests + original listings, from a probe write into a throw-away cache
+		origin := map[string]any{}
+		if err := env.resetWorkspace(req["ws"]); err != nil {
+			return nil, err
+		}
+		{
+			pfs, err := machineFS("probe")
+			if err != nil {
+				return nil, err
+			}
+			preg := output.NewRegistry(env.ctx, caching.NewCas(pfs))
+			for _, t := range targets {
+				for _, o := range t.outs {
+					if l, err := listing(filepath.Join(env.ws, t.pkg, o.Identifier)); err == nil {
+						origin[t.name+"\x00"+o.Identifier] = l
+					}
+				}
+				if res, err := preg.WriteOutputs(env.ctx, t.target(), nil); err == nil {
+					for _, o := range res.Outputs {
+						if d := o.GetDirectory(); d != nil {
+							tl.treeKeys[d.GetTreeDigest().GetHash()] = true
+						}
+					}
+				}
+			}
+			delete(machines, "probe")
+		}
+		hist, _ := req["history"].([]any)
+		steps := []any{}
+		pid := 0
+		for _, h := range hist {
+			hm, _ := h.(map[string]any)
+			mach, _ := hm["m"].(string)
+			do, _ := hm["do"].(string)
+			fs, err := machineFS(mach)
+			if err != nil {
+				return nil, err
+			}
+			remote.mu.Lock()
+			remote.faults = nil
+			remote.seen = map[int]int{}
+			if fl, ok := hm["faults"].([]any); ok {
+				for _, f := range fl {
+					fm, _ := f.(map[string]any)
+					rf := remoteFault{}
+					rf.Op, _ = fm["op"].(string)
+					rf.NS, _ = fm["ns"].(string)
+					rf.Key, _ = fm["key"].(string)
+					if n, ok := fm["nth"].(float64); ok {
+						rf.Nth = int(n)
+					}
+					rf.Kind, _ = fm["kind"].(string)
+					remote.faults = append(remote.faults, rf)
+				}
+			}
+			remote.mu.Unlock()
+			pid++
+			var backend backends.CacheBackend
+			if do == "build-local" {
+				backend = &setRecorder{CacheBackend: fs, log: tl, set: sets} // a run without a remote cache configured
+			} else {
+				backend = &callRec{inner: backends.NewRemoteWrapper(fs, remote), fs: fs, remote: remote, log: tl, pid: pid, mach: mach, set: sets}
+			}
+			tl.add(map[string]any{"e": "proc", "p": pid, "m": mach, "do": do})
+			cas := caching.NewCas(backend)
+			reg := output.NewRegistry(env.ctx, cas)
+			tc := caching.NewTargetResultCache(backend)
+			step := map[string]any{"m": mach, "do": do, "p": pid}
+			results := []any{}
+			idx, _ := hm["targets"].([]any)
+			for _, ti := range idx {
+				t := targets[int(ti.(float64))]
+				r := map[string]any{"target": t.name}
+				switch do {
+				case "build", "build-local":
+					// the command ran: its outputs are in the workspace
+					if err := env.resetWorkspace(req["ws"]); err != nil {
+						return nil, err
+					}
+					var res *gen.TargetResult
+					werr, hung := withTimeout(30*time.Second, func() error {
+						var e error
+						res, e = reg.WriteOutputs(env.ctx, t.target(), nil)
+						if e == nil {
+							e = tc.Write(env.ctx, res)
+						}
+						return e
+					})
+					r["outcome"] = errClass(werr)
+					if hung {
+						r["outcome"] = "hang"
+					}
+					if do == "build-local" && werr == nil {
+						// what a run without remote leaves in the local cache, as seen by the model
+						for _, o := range res.Outputs {
+							if f := o.GetFile(); f != nil {
+								tl.add(map[string]any{"e": "local", "m": mach, "ns": "cas", "k": f.GetDigest().GetHash(), "refs": []string{}})
+							}
+							if d := o.GetDirectory(); d != nil {
+								td := d.GetTreeDigest().GetHash()
+								if rc, err := fs.Get(env.ctx, "cas", td); err == nil {
+									b, _ := io.ReadAll(rc)
+									rc.Close()
+									fds := treeFileDigests(b)
+									for _, fd := range fds {
+										tl.add(map[string]any{"e": "local", "m": mach, "ns": "cas", "k": fd, "refs": []string{}})
+									}
+									tl.add(map[string]any{"e": "local", "m": mach, "ns": "cas", "k": td, "refs": fds})
+								}
+							}
+						}
+						b, _ := proto.MarshalOptions{Deterministic: true}.Marshal(res)
+						tl.add(map[string]any{"e": "local", "m": mach, "ns": "target", "k": t.key, "refs": tl.refsOf("target", t.key, b)})
+					}
+				case "restore":
+					cached, lerr := tc.Load(env.ctx, t.key)
+					if lerr != nil {
+						r["outcome"] = "miss"
+						break
+					}
+					// an empty workspace on this machine
+					for _, o := range t.outs {
+						os.RemoveAll(filepath.Join(env.ws, t.pkg, o.Identifier))
+					}
+					rerr, hung := withTimeout(30*time.Second, func() error { return reg.LoadOutputs(env.ctx, t.target(), cached, nil) })
+					switch {
+					case hung:
+						r["outcome"] = "hang"
+					case rerr != nil:
+						r["outcome"] = "err"
+						r["msg"] = rerr.Error()
+					default:
+						r["outcome"] = "ok"
+						equal := true
+						for _, o := range t.outs {
+							l, err := listing(filepath.Join(env.ws, t.pkg, o.Identifier))
+							a, _ := jsonString(l)
+							b, _ := jsonString(origin[t.name+"\x00"+o.Identifier])
+							if err != nil || a != b {
+								equal = false
+							}
+						}
+						r["equal"] = equal
+					}
+				}
+				results = append(results, r)
+			}
+			step["results"] = results
+			step["dangling"] = remoteClosure(remote)
+			steps = append(steps, step)
+		}
+		remote.mu.Lock()
+		rkeys := []string{}
+		for k := range remote.data {
+			rkeys = append(rkeys, k)
+		}
+		remote.mu.Unlock()
+		sort.Strings(rkeys)
+		locals := map[string]any{}
+		for name, fs := range machines {
+			_ = fs
+			saved := config.Global.Root
+			config.Global.Root = filepath.Join(env.dir, "root-"+name)
+			dir := config.Global.GetWorkspaceCacheDirectory()
+			config.Global.Root = saved
+			locals[name] = map[string]any{"cas": visibleKeys(dir, "cas"), "target": visibleKeys(dir, "target")}
+		}
+		return map[string]any{"steps": steps, "events": tl.events, "remote_keys": rkeys, "locals": locals,
+			"dangling": remoteClosure(remote), "remote_ops": remote.ops}, nil
+	})
+}
